@@ -45,6 +45,13 @@ def tl2_sig(u, name, g, i):
     return f"C12:tl2:{u.name}:{name}"
 
 
+def run_lines_e(exe, args, lines, **kw):
+    """run_lines that maps no input lines to no output lines"""
+    if not lines:
+        return 0, [], ""
+    return run_lines(exe, args, lines, **kw)
+
+
 def run(ctx):
     quick = ctx.quick()
     with Lock():
@@ -127,7 +134,7 @@ def run(ctx):
                     if x["kind"] == "union" and not boxed:
                         continue
                     enc_lines.append(f"enc 0 {tid} {name} {boxed} | {vtext(v)}")
-        rc, enc_out, err = run_lines(ref, [str(u.ir_path)], enc_lines)
+        rc, enc_out, err = run_lines_e(ref, [str(u.ir_path)], enc_lines)
         if rc != 0 or len(enc_out) != len(enc_lines):
             with lock:
                 unit_errors.append((u.name, f"model driver failed (enc): rc={rc} {err[-300:]}"))
@@ -158,7 +165,7 @@ def run(ctx):
                 else:
                     cand.append((tid, name, boxed, hx(mutate_bytes(rng, b, tags)), "mutated"))
         c1 = [f"rw1 1 {tid} {name} {boxed} {h}" for tid, name, boxed, h, k in cand]
-        m1 = run_lines(ref, [str(u.ir_path)], c1)[1] if cand else []
+        m1 = run_lines_e(ref, [str(u.ir_path)], c1)[1] if cand else []
         for c, a in zip(cand, m1):
             if a.startswith("eof"):
                 s_["tl1_mutated_skipped_sanity_dependent"] += 1
@@ -167,8 +174,8 @@ def run(ctx):
         inputs = valid + mutated
         lines = [f"rw1 {san} {tid} {name} {boxed} {h}" for tid, name, boxed, h, k in inputs]
         lines0 = [f"rw1 0 {tid} {name} {boxed} {h}" for tid, name, boxed, h, k in inputs]
-        rc1, mo, err1 = run_lines(ref, [str(u.ir_path)], lines)
-        mo0 = run_lines(ref, [str(u.ir_path)], lines0)[1] if u.san else mo
+        rc1, mo, err1 = run_lines_e(ref, [str(u.ir_path)], lines)
+        mo0 = run_lines_e(ref, [str(u.ir_path)], lines0)[1] if u.san else mo
         go = run_lines_resilient(u.gen.exe, [], lines, timeout=900, max_restarts=10)
         it, _ = obj_lib.run_otf(otf, oscr, load, lines)
         if rc1 != 0 or it is None or len(mo) != len(lines) or len(go) != len(lines) or len(it) != len(lines):
